@@ -555,7 +555,7 @@ impl<'a> Driver<'a> {
             if s == 0 && self.w.cfg.stratum.contains("psk-replace-one-side") {
                 let n = if self.w.cfg.stratum.contains("psk-replace-one-side-a") { a } else { b };
                 step!(self, Op::SetPsk { node: n as u8, idx, kind: PskKind::Wrong });
-            } else if p.query > 0 && self.rng.chance(1, 12) {
+            } else if p.query > 0 && !self.w.cfg.mismatch && self.rng.chance(1, 12) {
                 step!(self, Op::SetPsk { node: a as u8, idx, kind: PskKind::Wrong });
                 step!(self, Op::SetPsk { node: b as u8, idx, kind: PskKind::Wrong });
             }
